@@ -29,7 +29,13 @@ RULE = ('the real CRTTransferManager Python layer against a stub awscrt (the nat
 ASSUMPTIONS = ['whether the real awscrt honours the callback contract is outside this repository',
                'CRTTransferManager(osutil=...) is not used: its constructor only sets _osutil when osutil is None (observed, not part of C20)']
 CASE_TIMEOUT = 180.0
-OUTCOMES = ['ok', 'error', 'cancel', 'serialize_fail', 'make_fail', 'queued_fail']
+OUTCOMES = ['ok', 'error', 'cancel', 'serialize_fail', 'make_fail', 'queued_fail', 'reject']
+LAMBDA_ARN = 'arn:aws:s3-object-lambda:us-west-2:123456789012:accesspoint/vf-ap'
+
+
+def bkt_of(t):
+    """'reject': a call the manager refuses at call time (an S3 Object Lambda access point as bucket); the caller carries on."""
+    return LAMBDA_ARN if t['outcome'] == 'reject' else 'bkt'
 
 
 class CountingSemaphore:
@@ -182,11 +188,11 @@ def run_spec(spec):
                             p = os.path.join(tmp, f'src-{i}')
                             with open(p, 'wb') as f:
                                 f.write(data)
-                            futures[i] = mgr.upload(p, 'bkt', f'key-{i}', subscribers=subs)
+                            futures[i] = mgr.upload(p, bkt_of(t), f'key-{i}', subscribers=subs)
                         else:
                             import io
 
-                            futures[i] = mgr.upload(io.BytesIO(data), 'bkt', f'key-{i}', subscribers=subs)
+                            futures[i] = mgr.upload(io.BytesIO(data), bkt_of(t), f'key-{i}', subscribers=subs)
                     elif t['kind'] == 'download':
                         if t.get('dst', 'path') == 'path':
                             p = os.path.join(tmp, f'dst-{i}')
@@ -200,14 +206,14 @@ def run_spec(spec):
                                 with open(p, 'wb') as f:
                                     f.write(prevs[i])
                             dests[i] = p
-                            futures[i] = mgr.download('bkt', f'key-{i}', p, subscribers=subs)
+                            futures[i] = mgr.download(bkt_of(t), f'key-{i}', p, subscribers=subs)
                         else:
                             import io
 
                             dests[i] = io.BytesIO()
-                            futures[i] = mgr.download('bkt', f'key-{i}', dests[i], subscribers=subs)
+                            futures[i] = mgr.download(bkt_of(t), f'key-{i}', dests[i], subscribers=subs)
                     else:
-                        futures[i] = mgr.delete('bkt', f'key-{i}', subscribers=subs)
+                        futures[i] = mgr.delete(bkt_of(t), f'key-{i}', subscribers=subs)
                 except BaseException as e:  # noqa
                     submit_exc[i] = e
                 log.add('submit.end', idx=i, error=repr(submit_exc.get(i)) if i in submit_exc else None)
@@ -360,6 +366,15 @@ def evaluate(spec, run):
         if not began:
             continue
         n_rel = run.releases.get(i, 0)
+        if t['outcome'] == 'reject':
+            # refused at call time with ValueError: nothing of it may linger (no permit taken, no callback, no request)
+            e = run.submit_exc.get(i)
+            if not isinstance(e, ValueError):
+                viol.append(V(f'transfer {i} ({t["kind"]}): a bucket the manager does not support was not rejected with ValueError at call time ({e!r})',
+                              sym='not-rejected', **m))
+            if n_rel:
+                viol.append(V(f'transfer {i} ({t["kind"]}, rejected call): {n_rel} permit releases', sym='release-count', count=n_rel, **m))
+            continue
         if n_rel != 1:
             viol.append(V(f'transfer {i} ({t["kind"]}, {t["outcome"]}): {n_rel} permit releases', sym='release-count', count=n_rel, **m))
         rel = [e['n'] for e in ev if e['kind'] == 'sem.release' and e['idx'] == i]
